@@ -24,20 +24,24 @@ Sq2(a, b) == L(<<a, b>>)
 Dep(c) == M2("condition", S(c), "required", B(TRUE))
 \* [n, path below services.a (or from the root when top), short, long]
 Table == <<
-  [n |-> "build", top |-> FALSE, p |-> <<"build">>, short |-> S("./ctx"), long |-> M1("context", S("./ctx"))],
+  [n |-> "build", top |-> FALSE, p |-> <<"build">>, short |-> S("./ctx"), long |-> M1("context", S("./ctx")),
+     under |-> M3("context", S("./base"), "dockerfile", S("Dockerfile.dev"), "target", S("prod"))],
   [n |-> "env_file string", top |-> FALSE, p |-> <<"env_file">>, short |-> S("./a.env"), long |-> Sq1(M2("path", S("./a.env"), "required", B(TRUE)))],
   [n |-> "env_file list", top |-> FALSE, p |-> <<"env_file">>, short |-> Sq2(S("./a.env"), S("./b.env")),
      long |-> Sq2(M2("path", S("./a.env"), "required", B(TRUE)), M2("path", S("./b.env"), "required", B(TRUE))),
      over |-> Sq1(M2("path", S("./a.env"), "required", B(FALSE)))],
   [n |-> "label_file string", top |-> FALSE, p |-> <<"label_file">>, short |-> S("./a.label"), long |-> Sq1(S("./a.label"))],
   [n |-> "depends_on list", top |-> FALSE, p |-> <<"depends_on">>, short |-> Sq2(S("db"), S("cache")), long |-> M2("db", Dep("service_started"), "cache", Dep("service_started")),
-     over |-> M1("db", M2("condition", S("service_healthy"), "restart", B(TRUE)))],
+     over |-> M1("db", M2("condition", S("service_healthy"), "restart", B(TRUE))),
+     under |-> M2("db", M3("condition", S("service_healthy"), "required", B(FALSE), "restart", B(TRUE)), "cache", M1("condition", S("service_completed_successfully")))],
   [n |-> "networks list", top |-> FALSE, p |-> <<"networks">>, short |-> Sq2(S("n1"), S("n2")), long |-> M2("n1", Null, "n2", Null),
-     over |-> M1("n1", M1("aliases", Sq1(S("alias1"))))],
+     over |-> M1("n1", M1("aliases", Sq1(S("alias1")))),
+     under |-> M2("n1", M2("aliases", Sq1(S("alias0")), "priority", I(7)), "n2", M1("priority", I(3)))],
   [n |-> "extends string", top |-> FALSE, p |-> <<"extends">>, short |-> S("db"), long |-> M1("service", S("db"))],
   [n |-> "healthcheck test string", top |-> FALSE, p |-> <<"healthcheck", "test">>, short |-> S("curl -f http://localhost"), long |-> Sq2(S("CMD-SHELL"), S("curl -f http://localhost"))],
   [n |-> "secrets short", top |-> FALSE, p |-> <<"secrets">>, short |-> Sq2(S("s1"), S("s2")), long |-> Sq2(M1("source", S("s1")), M1("source", S("s2"))),
-     over |-> Sq1(M2("source", S("s1"), "mode", I(256)))],
+     over |-> Sq1(M2("source", S("s1"), "mode", I(256))),
+     under |-> Sq2(M3("source", S("s1"), "target", S("/run/secrets/s1"), "mode", I(288)), M2("source", S("s2"), "target", S("elsewhere")))],
   [n |-> "configs short", top |-> FALSE, p |-> <<"configs">>, short |-> Sq1(S("c1")), long |-> Sq1(M1("source", S("c1")))],
   [n |-> "dns string", top |-> FALSE, p |-> <<"dns">>, short |-> S("1.1.1.1"), long |-> Sq1(S("1.1.1.1"))],
   [n |-> "dns_search string", top |-> FALSE, p |-> <<"dns_search">>, short |-> S("example.com"), long |-> Sq1(S("example.com"))],
@@ -98,7 +102,9 @@ Next == /\ IsSeed
                 cs' = [family |-> "table", short |-> Table[i].short, valid |-> TRUE, long |-> Table[i].long,
                        path |-> (IF Table[i].top THEN <<>> ELSE <<"services", "a">>) \o Table[i].p, n |-> Table[i].n,
                        \* a later file that refines one element in long syntax: the two spellings must still agree
-                       over |-> (IF "over" \in DOMAIN Table[i] THEN Table[i].over ELSE Null)]
+                       over |-> (IF "over" \in DOMAIN Table[i] THEN Table[i].over ELSE Null),
+                       \* an earlier file (or an extended base) with a richer long-syntax value, which the two spellings refine alike
+                       under |-> (IF "under" \in DOMAIN Table[i] THEN Table[i].under ELSE Null)]
            \/ cs.seed = "portlists" /\ \E ps \in PortLists :
                 cs' = [family |-> "ports", short |-> L([i \in 1..Len(ps) |-> S(PortShort(ps[i]))]), valid |-> TRUE,
                        long |-> L(DedupFirst(Flatten([i \in 1..Len(ps) |-> PortLong(ps[i]).v]))),
